@@ -143,6 +143,30 @@ def main():
         .inst(executors=("exec", "exec2")).create_bid("buyer", [(10, "q")], B1, None, "2", "q", 10, 5) \
         .modify("exec", executors=["exec"]).rev("expire_bid", "exec2", B1).modify("exec2", executors=["exec2"]) \
         .rev("expire_bid", "exec", B1).write()
+    H("c03_price_off_by_a_hair", "execution prices that only round to a limit price").env().inst(precision=2, increment=100) \
+        .create_ask("seller", [(1000, "base")], A1, "base", "q", "2", 1000).create_bid("buyer", [(2000, "q")], B1, None, "2.00", "q", 2000, 1000) \
+        .match("exec", A1, B1, "1.996", 500).match("exec", A1, B1, "2.004", 500).match("exec", A1, B1, "2.0000", 500) \
+        .create_ask("seller", [(1000, "base")], A2, "base", "q", "1.5", 1000).create_bid("buyer", [(2500, "q")], B2, None, "2.5", "q", 2500, 1000) \
+        .match("exec", A2, B2, "1.504", 500).match("exec", A2, B2, "2.496", 500).match("exec", A2, B2, "2", 500).match("exec", A2, B2, "1.50", 500).write()
+    H("c01_fractional_refund_closing", "fills at the ask price whose size makes bid price * size fractional, closing the bid").env() \
+        .inst(precision=1, increment=10).create_bid("buyer", [(50, "q")], B1, None, "2.5", "q", 50, 20) \
+        .create_ask("seller", [(20, "base")], A1, "base", "q", "2", 20).match("exec", A1, B1, "2", 5).match("exec", A1, B1, "2.0", 15) \
+        .match("exec", A1, B1, "2", 4).exits(owner_a="seller", owner_b="buyer").write()
+    H("c04_sub_lot_remainder", "partial reject leaving less than one lot after an off-grid fill").env().inst(increment=100) \
+        .create_bid("buyer", [(600, "q")], B1, None, "2", "q", 600, 300).create_ask("seller", [(300, "base")], A1, "base", "q", "2", 300) \
+        .match("exec", A1, B1, "2", 150).rev("reject_bid", "exec", B1, 100).exits(owner_b="buyer").rev("reject_ask", "exec", A1, 100) \
+        .exits(owner_a="seller").rev("cancel_bid", "buyer", B1).write()
+    H("c06_zero_fee_coin_no_fee_config", "a bid carrying an explicit zero fee coin while no bid fee is configured").env().inst() \
+        .create_bid("buyer", [(10, "q")], B1, (0, "q"), "2", "q", 10, 5).exits(owner_b="buyer").rev("reject_bid", "exec", B1, 2) \
+        .rev("cancel_bid", "buyer", B1).write()
+    H("c11_huge_sizes", "sizes at and above 2^64").env().inst() \
+        .create_bid("buyer", [(2 * (2 ** 64 + 5000), "q")], B1, None, "2", "q", 2 * (2 ** 64 + 5000), 2 ** 64 + 5000) \
+        .create_ask("seller", [(2 ** 64 + 5000, "base")], A1, "base", "q", "2", 2 ** 64 + 5000) \
+        .match("exec", A1, B1, "2", 2 ** 64 + 1000).exits(owner_a="seller", owner_b="buyer").match("exec", A1, B1, "2", 4000).write()
+    H("c12_rate_with_more_decimals", "fee rate changes that round to the stored rate").env().inst(afr="0.01", afa="feea", bfr="0.01", bfa="feeb") \
+        .create_ask("seller", [(5, "base")], A1, "base", "q", "2", 5).create_bid("buyer", [(10, "q")], B1, None, "2", "q", 10, 5) \
+        .modify("exec", afr="0.0125", afa="feea").modify("exec", afr="0.00999", afa="feea").modify("exec", afr="0.010", afa="feea") \
+        .modify("exec", bfr="0.014", bfa="feeb").modify("exec", bfr="0.0100", bfa="feeb").query("get_contract_info").write()
     # known numeric classes (recorded findings): witnesses live in corpus/known/
     H("k_inexact_match", "K_inexact: precision 18, increment 1e18, price 0.999999999999999999, size 1e18+1").env() \
         .inst(precision=18, increment=10 ** 18) \
